@@ -373,7 +373,8 @@ Proof.
   intros K t H. apply forallb_forall. intros x Hx. unfold regroup in Hx. apply in_flat_map in Hx.
   destruct Hx as [g [Hg Hx]]. apply in_map_iff in Hx. destruct Hx as [c [<- Hc]].
   pose proof (groups_forall (fun c => kind_eqb (w_kind c) K = true) (fun _ => True) t (fun _ _ => I)) as G.
-  rewrite Forall_forall in G. rewrite forallb_forall in H. specialize (G H g Hg). destruct G as [_ G].
+  rewrite forallb_forall in H. assert (H' : Forall (fun c => kind_eqb (w_kind c) K = true) t) by (apply Forall_forall; exact H).
+  specialize (G H'). rewrite Forall_forall in G. specialize (G g Hg). destruct G as [_ G].
   rewrite Forall_forall in G. specialize (G c Hc). cbn. destruct (w_kind c), K; cbn in *; congruence.
 Qed.
 
@@ -401,19 +402,16 @@ Lemma opt_eqb_eq : forall A (e : A -> A -> bool), (forall x y, e x y = true -> x
 Proof. intros A e He [x|] [y|]; cbn; try congruence. intros H. f_equal. apply He; exact H. Qed.
 Lemma dval_eqb_eq : forall a b, dval_eqb a b = true -> a = b.
 Proof.
-  destruct a, b; cbn; try congruence; intros H; f_equal; try lia.
-  - apply str_eqb_eq; exact H.
-  - apply eqb_prop; exact H.
+  intros x y; destruct x, y; cbn [dval_eqb]; try congruence; intros H; f_equal; try lia;
+    try (apply str_eqb_eq; exact H); try (apply eqb_prop; exact H).
 Qed.
 Lemma cval_eqb_eq : forall a b, cval_eqb a b = true -> a = b.
 Proof.
-  destruct a, b; cbn; try congruence; intros H; f_equal; try lia.
-  - apply eqb_prop; exact H.
-  - apply (list_eqb_eq _ Z.eqb); [intros; lia|exact H].
-  - apply (list_eqb_eq _ Z.eqb); [intros; lia|exact H].
+  intros x y; destruct x, y; cbn [cval_eqb]; try congruence; intros H; f_equal; try lia;
+    try (apply eqb_prop; exact H); try (apply (list_eqb_eq _ Z.eqb); [intros; lia|exact H]).
 Qed.
 Lemma lim_eqb_eq : forall a b, lim_eqb a b = true -> a = b.
-Proof. destruct a, b; cbn; try congruence; intros; f_equal; lia. Qed.
+Proof. intros x y; destruct x, y; cbn; try congruence; intros; f_equal; lia. Qed.
 Lemma pair_eqb_eq : forall A (e : A -> A -> bool), (forall x y, e x y = true -> x = y) ->
   forall (a b : str * A), pair_eqb str_eqb e a b = true -> a = b.
 Proof.
